@@ -38,7 +38,7 @@ import (
 )
 
 func isFamilySection(name string) bool {
-	return strings.HasPrefix(name, "layout-") || strings.HasPrefix(name, "budget-")
+	return strings.HasPrefix(name, "layout-") || strings.HasPrefix(name, "budget-") || strings.HasPrefix(name, "reuse-")
 }
 
 func budgetFamilyReport() map[string]any {
